@@ -490,9 +490,20 @@ class World:
         self._ctx.__enter__()
         self._obs = lambda ev: self._observe(ev)
         tlog.addObserver(self._obs)
+        # every NoTransition Automat constructs during the run is recorded where it is created: one raised inside a Deferred callback chain
+        # (Terminator.stoppedRC under RendezvousConnector.stop()'s Deferred, ...) is otherwise only reported when the Deferred is garbage-collected
+        self.no_transitions = []
+        self._nt_init = NoTransition.__init__
+        world = self
+
+        def _recording_init(exc, state, symbol, _orig=self._nt_init):
+            _orig(exc, state, symbol)
+            world.no_transitions.append(describe_exc(exc))
+        NoTransition.__init__ = _recording_init
         return self
 
     def __exit__(self, *a):
+        NoTransition.__init__ = self._nt_init
         tlog.removeObserver(self._obs)
         self._ctx.__exit__(*a)
         return False
